@@ -77,7 +77,7 @@ func ctorDropsParam(f *ssa.Function) (checked int, dropped []string) {
 						order = append(order, key)
 					}
 					for _, v := range stores[i] {
-						if dependsOnValue(v, prm) {
+						if dependsOnValue(v, prm) || controlDependsOn(v, prm) {
 							kept[key] = true
 						}
 						// a map or list filled element by element from the parameter (normalised copies)
@@ -117,4 +117,24 @@ func ruleCtorParam(c *Ctx, rule string, pkgs []*packages.Package) {
 		}
 	}
 	c.Ob(rule, "functions-scanned", token.NoPos, n == 0, fns > 0, "%d functions scanned, %d parameter/member pairs checked, %d dropped", fns, checked, n)
+}
+
+// controlDependsOn: v is a φ one of whose alternatives is chosen by a test of prm (`enabled || other`, `cond ? a : b`
+// spelled with if/else): the parameter decides the stored value without being an operand of it.
+func controlDependsOn(v ssa.Value, prm *ssa.Parameter) bool {
+	ph, ok := stripConv(v).(*ssa.Phi)
+	if !ok {
+		return false
+	}
+	for _, pred := range ph.Block().Preds {
+		if i := ifOf(pred); i != nil && dependsOnValue(i.Cond, prm) {
+			return true
+		}
+		for _, ge := range guardingEdges(pred) {
+			if dependsOnValue(ge.If.Cond, prm) {
+				return true
+			}
+		}
+	}
+	return false
 }
